@@ -351,18 +351,33 @@ func (w *World) startIncarnation(opts Options) error {
 	w.mu.Unlock()
 	var err error
 	tapped := w.Atomix.Tapped(inc.rpcTap)
-	if inc.RawCf, err = configuration.NewAtomixStore(tapped); err != nil {
+	// the system under test gets its own store objects (tapped); the harness observes through a second set, so
+	// that a goroutine of a killed incarnation, parked inside a store method with the store's lock held, can
+	// never block the harness
+	sutCf, err := configuration.NewAtomixStore(tapped)
+	if err != nil {
 		return err
 	}
-	if inc.RawPr, err = proposal.NewAtomixStore(tapped); err != nil {
+	sutPr, err := proposal.NewAtomixStore(tapped)
+	if err != nil {
 		return err
 	}
-	if inc.RawTxs, err = transaction.NewAtomixStore(tapped); err != nil {
+	sutTxs, err := transaction.NewAtomixStore(tapped)
+	if err != nil {
 		return err
 	}
-	inc.Cfgs = &cfgDeco{inner: inc.RawCf, inc: inc}
-	inc.Props = &propDeco{inner: inc.RawPr, inc: inc}
-	inc.Txs = &txDeco{inner: inc.RawTxs, inc: inc}
+	if inc.RawCf, err = configuration.NewAtomixStore(w.Atomix); err != nil {
+		return err
+	}
+	if inc.RawPr, err = proposal.NewAtomixStore(w.Atomix); err != nil {
+		return err
+	}
+	if inc.RawTxs, err = transaction.NewAtomixStore(w.Atomix); err != nil {
+		return err
+	}
+	inc.Cfgs = &cfgDeco{inner: sutCf, inc: inc}
+	inc.Props = &propDeco{inner: sutPr, inc: inc}
+	inc.Txs = &txDeco{inner: sutTxs, inc: inc}
 	topo := &topoDeco{Topo: w.Topo, inc: inc}
 	inc.Server = nb.NewServerForVerif(topo, inc.Txs, inc.Props, inc.Cfgs, w.Registry, inc.Conns, opts.SetSizeLimit)
 	inc.Admin = nbadmin.NewServerForVerif(inc.Txs, inc.Cfgs, w.Registry)
